@@ -76,6 +76,23 @@ def cases(draw):
         c["sk"], c["stream"] = draw(stream(32, R, 255))
     elif op in ("fq_random", "fq2_random", "g1_random", "g2_random", "wk_g1", "wk_g2"):
         c["sk"], c["stream"] = draw(stream(48, Q, 381))
+        if op not in ("fq_random", "fq2_random") and draw(st.integers(0, 2)) == 0:
+            # first candidate x belongs to a point of the cofactor subgroup ([h]P = O): the sampler has to retry
+            g = 1 if op in ("g1_random", "wk_g1") else 2
+            K = c05.KK(g)
+            if g == 1 and draw(st.booleans()):
+                T = (0, 2)
+            else:
+                x = draw(c05.fe(g))
+                P = None
+                while P is None:
+                    P = C.lift_x(x, K, 0)
+                    x = K.add(x, K.one)
+                T = C.mul(P, R, K)
+            if T is not None:
+                xs = [T[0]] if g == 1 else [T[0][0], T[0][1]]
+                head = b"".join(conv.bi(conv.fq_raw(v), 384) for v in xs) + bytes([draw(st.integers(0, 255))])
+                c["sk"], c["stream"] = "cofactor_point", head + c["stream"]
     else:
         c["sk"], c["stream"] = draw(stream(8, -F.X, 64))
     return c
